@@ -79,7 +79,7 @@ impl Model for M15 {
                     (Ok(a), Ok(b)) => {
                         o.expect(&format!("C15:encode-deterministic:{}:{:?}", tn, c), a == b, "equal", "differs");
                         o.record("enc", a);
-                        if e.fixed() && !matches!(c, Codec::Json) {
+                        if e.fixed() && !matches!(c, Codec::Json | Codec::JsonReader | Codec::JsonValue) {
                             let first = e.encode(0, c).map(|x| x.len()).unwrap_or(0);
                             o.expect(&format!("C15:fixed-length:{}:{:?}", tn, c), a.len() == first, &format!("{} bytes", first), &format!("{} bytes", a.len()));
                             o.outcome("length:fixed");
